@@ -199,7 +199,7 @@ func (f *OrefaFile) Read(b []byte) (n int, err error) {
 
 	f.at += int64(n)
 
-	if n == 0 {
+	if n == 0 && len(b) > 0 {
 		return 0, io.EOF
 	}
 
